@@ -255,6 +255,27 @@ func TestVerifC10(t *testing.T) {
 			}
 			docs = append(docs, dd{fmt.Sprintf("d%02d%s.txt", j, strings.Repeat("x", r.Intn(20))), c})
 		}
+		if nd > 0 && r.Chance(60) {
+			// put ShardMax exactly ON a running total (predicted weights), so that `>` vs `>=` in the flush rule matters
+			k, sum := 1+r.Intn(nd), 0
+			for _, d := range docs {
+				w := len(d.name)
+				if len(d.content) <= sizeMax && bytes.IndexByte(d.content, 0) < 0 {
+					w += len(d.content)
+				}
+				if sum+w > sum && k > 0 {
+					sum += w
+					k--
+				}
+				if k == 0 {
+					break
+				}
+			}
+			shardMax = sum
+			if r.Chance(30) {
+				shardMax = sum / 2 // several boundaries
+			}
+		}
 		var observed [][][]uint64 // per parallelism
 		var skippedSeen map[string]bool
 		for _, par := range []int{1, 3} {
